@@ -523,6 +523,15 @@ MUTANTS = [
      "        contain, contained, intersect = utils.disk_interactions(\n            sctr, srad, octr, orad, broadcast=broadcast\n        )\n\n        res = np.full(contain.shape, True)",
      "        contain, contained, intersect = utils.disk_interactions(\n            octr, orad, sctr, srad, broadcast=broadcast\n        )\n\n        res = np.full(contain.shape, True)"),
     # ---- rules written from round 7
+    ("c01-klein-to-poincare-snap-boundary", ["C01"], "TOL1", H,
+     "    mult_factor = 1 / (1 + np.sqrt(np.abs(1 - euc_norms)))\n\n    return (points.T * mult_factor.T).T",
+     "    mult_factor = 1 / (1 + np.sqrt(np.abs(1 - euc_norms)))\n    mult_factor = np.where(np.abs(1 - euc_norms) < ERROR_THRESHOLD, 1., mult_factor)\n\n    return (points.T * mult_factor.T).T"),
+    ("c01-halfspace-infinity-by-isclose", ["C01"], "TOL1", H,
+     "    denom = (x2 + (y - 1)*(y - 1))\n",
+     "    denom = (x2 + (y - 1)*(y - 1))\n    denom = np.where(np.isclose(denom, 0), 0., denom)\n"),
+    ("c01-affine-dist-small-r", ["C01"], "TOL1", H,
+     "    return (np.exp(2 * r) - 1) / (1 + np.exp(2 * r))",
+     "    r = np.asarray(r)\n    return np.where(np.abs(r) < 1e-6, r, (np.exp(2 * r) - 1) / (1 + np.exp(2 * r)))"),
     ("c14-sphere-mean-of-basis", ["C14"], "MEAN2", H,
      "            klein_midpoint = _flat_center(klein_basis)",
      "            klein_midpoint = klein_basis.sum(axis=-2) / klein_basis.shape[-2]"),
@@ -685,13 +694,13 @@ SEEDED = [
     ("r7-C18-2", "C18", "SH2"), ("r7-C19-1", "C19", "SGN1"),
     ("r7-C20-2", "C20", "HOM1"), ("r7-C09-2", "C09", "OFS1"),
     ("r7-C11-2", "C11", "HOM1"), ("r7-C13-1", "C13", "RNG1"),
-    ("r7-C17-1", "C17", "EXP1"),
+    ("r7-C17-1", "C17", "EXP1"), ("r7-C01-2", "C01", "TOL1"),
 ]
 # seeded changes no static rule here decides (numerical / heuristic):
 # C14-1, C15-1, C15-2, C19-1, C20-2, r2-C12-2, r2-C14-1, r2-C15-2, r2-C19-1,
 # r2-C20-2, r5-C03-2, r5-C08-1, r5-C08-2, r5-C09-2, r5-C10-1, r5-C10-2,
 # r5-C17-1, r5-C18-2, r6-C05-2, r6-C13-1, r6-C13-2, r6-C15-2,
-# r6-C16-1, r6-C17-1, r6-C18-1, r6-C19-1, r6-C19-2, r6-C20-2, r7-C01-2,
+# r6-C16-1, r6-C17-1, r6-C18-1, r6-C19-1, r6-C19-2, r6-C20-2,
 # r7-C04-1, r7-C04-2, r7-C05-1, r7-C06-1, r7-C08-2, r7-C09-1, r7-C15-1,
 # r7-C16-1, r7-C17-2, r7-C18-1, r7-C19-2, r7-C20-1 -- see DESIGN.md
 # section 6.2
@@ -830,6 +839,9 @@ NEUTRAL = [
     ("n-aligned-sign", ["C12"], H,
      "        aligned = other.proj_data * np.expand_dims(-np.sign(products), axis=-1)",
      "        aligned = -np.sign(products)[..., np.newaxis] * other.proj_data"),
+    ("n-halfspace-infinity-exact-zero", ["C01", "C12"], H,
+     "    denom = (x2 + (y - 1)*(y - 1))\n\n    with np.errstate(divide=\"ignore\", invalid=\"ignore\"):\n        halfspace_coords[..., :-1] = (-2 * v) / denom[..., np.newaxis]\n        halfspace_coords[..., -1] = (1 - x2 - y * y) / denom\n",
+     "    denom = (x2 + (y - 1)*(y - 1))\n    finite = denom != 0\n\n    with np.errstate(divide=\"ignore\", invalid=\"ignore\"):\n        halfspace_coords[..., :-1] = (-2 * v) / denom[..., np.newaxis]\n        halfspace_coords[..., -1] = (1 - x2 - y * y) / denom\n    assert finite.shape == denom.shape\n"),
     ("n-irrep-guarded-loop", ["C17"], G + "lie/core.py",
      "            for i in range(max(0, j - r + k), min(j+1, k+1)):\n",
      "            for i in range(min(j, k) + 1):\n                if r - k - j + i < 0:\n                    continue\n"),
